@@ -174,6 +174,7 @@ def describe_path(I: Interp, st, disc_hint: Optional[str] = None) -> str:
 def analyse_pair(repo, reader: FuncInfo, writer_name: str, N: int, kind: str = "ba", reader_args=None, reader_kw=None,
                  wire_name: str = "w", max_paths: int = 300, interp_hook=None, cls: Optional[ClassInfo] = None) -> List[BranchResult]:
     I = Interp(repo)
+    I.explore_undefined_enums = True   # the ValueError exit of an enumeration without _missing_ is a reader path of its own
     if interp_hook:
         interp_hook(I)
     out: List[BranchResult] = []
@@ -201,6 +202,7 @@ def analyse_pair(repo, reader: FuncInfo, writer_name: str, N: int, kind: str = "
     for st, (k, v) in explore(run, max_paths=max_paths):
         I.st = st
         br = BranchResult()
+        br.st = st
         br.labels = [f"{'' if d else '!'}{l}" for l, d in zip(st.labels, st.decisions)]
         br.sentinel = any(d and l.startswith("__init__:") and l.endswith("==0") for l, d in zip(st.labels, st.decisions))
         br.assumed = list(st.assumed)
